@@ -459,6 +459,9 @@ func TestVerif_C04_Faults(t *testing.T) {
 					if rk == "revoke-self" && !w.tc.tokenAlive(w.toks[target].id) {
 						rk = "revoke" // the token cannot authenticate its own retry any more
 					}
+					if a >= 1 {
+						rk = "revoke" // e.g. revoke-accessor refuses a half-revoked token with an error; the operator falls back to the id
+					}
 					rr2 := w.revoke(rk, target)
 					attempts = append(attempts, rk+"="+rr2.String())
 					ok = rr2.ok()
